@@ -291,16 +291,27 @@ PoleProto(t) == CASE t = "small" -> "small-electric-pole" [] t = "medium" -> "me
 CheckPaste(p, k) ==
   LET u == UnitsOf(p)[k] IN
   /\ (UnknownProtos(u) = {} \/ Fail(p, "C08_proto", [unit |-> k, unknown |-> UnknownProtos(u)]))
-  /\ (Overlaps(u) = {} \/ Fail(p, "C08_overlap", [unit |-> k, pairs |-> {<<Name(u, q[1]), Ents(u)[q[1]].position, Name(u, q[2]), Ents(u)[q[2]].position>> : q \in Overlaps(u)}]))
+  /\ (Overlaps(u) = {} \/ Fail(p, "C08_overlap", [unit |-> k, pairs |-> {<<EName(u, q[1]), Ents(u)[q[1]].position, EName(u, q[2]), Ents(u)[q[2]].position>> : q \in Overlaps(u)}]))
   /\ (BadEnds(u) = {} \/ Fail(p, "C08_wire_ends", [unit |-> k, wires |-> {WireList(u)[i] : i \in BadEnds(u)}]))
   /\ (BadColour(u) = {} \/ Fail(p, "C08_wire_colour", [unit |-> k, wires |-> {WireList(u)[i] : i \in BadColour(u)}]))
-  /\ (TooLong(u) = {} \/ Fail(p, "C08_wire_reach", [unit |-> k, wires |-> {<<WireList(u)[i], Name(u, WireList(u)[i][1]), Name(u, WireList(u)[i][3]), Dist2(u, WireList(u)[i][1], WireList(u)[i][3])>> : i \in TooLong(u)}]))
+  /\ (TooLong(u) = {} \/ Fail(p, "C08_wire_reach", [unit |-> k, wires |-> {<<WireList(u)[i], EName(u, WireList(u)[i][1]), EName(u, WireList(u)[i][3]), Dist2(u, WireList(u)[i][1], WireList(u)[i][3])>> : i \in TooLong(u)}]))
 CheckPower(p, k) ==
   LET u == UnitsOf(p)[k]  t == PoleProto(PoleOpt(p, k)) IN
-  IF t = "" THEN (\A q \in Poles(u) : IsRelay(u, q)) \/ Fail(p, "C18_no_option", [unit |-> k, poles |-> {<<Name(u, q), Ents(u)[q].position>> : q \in {q \in Poles(u) : ~IsRelay(u, q)}}])
-  ELSE /\ (Unpowered(u, t) = {} \/ Fail(p, "C18_powered", [unit |-> k, type |-> t, unpowered |-> {<<Name(u, e), Ents(u)[e].position>> : e \in Unpowered(u, t)}]))
+  IF t = "" THEN (\A q \in Poles(u) : IsRelay(u, q)) \/ Fail(p, "C18_no_option", [unit |-> k, poles |-> {<<EName(u, q), Ents(u)[q].position>> : q \in {q \in Poles(u) : ~IsRelay(u, q)}}])
+  ELSE LET UP == Unpowered(u, t)
+           PQ == PolesOf(u, t)
+           \* bounding box of all supply areas: a compiler-placed combinator that the (time-limited) layout put outside the area the
+           \* pole grid was planned for is a different, recorded defect (KF-C18-grid-before-layout) than an unpowered entity inside it
+           sup == IF PQ = {} THEN 0 ELSE PR(u, CHOOSE q \in PQ : TRUE).supply
+           bb == IF PQ = {} THEN [x1 |-> 0, x2 |-> 0, y1 |-> 0, y2 |-> 0]
+                 ELSE [x1 |-> Min({PX(u, q) : q \in PQ}) - sup, x2 |-> Max({PX(u, q) : q \in PQ}) + sup, y1 |-> Min({PY(u, q) : q \in PQ}) - sup, y2 |-> Max({PY(u, q) : q \in PQ}) + sup]
+           outside == {e \in UP : KindT[u][e] \in {"A", "D"} /\ ~Overlap(TileBox(u, e), bb)}
+           inside == UP \ outside
+       IN
+       /\ (inside = {} \/ Fail(p, "C18_powered", [unit |-> k, type |-> t, unpowered |-> {<<EName(u, e), Ents(u)[e].position>> : e \in inside}]))
+       /\ (outside = {} \/ Fail(p, "C18_powered_outside", [unit |-> k, type |-> t, unpowered |-> {<<EName(u, e), Ents(u)[e].position>> : e \in outside}]))
        /\ (OneGrid(u) \/ Fail(p, "C18_one_grid", [unit |-> k, type |-> t, poles |-> Cardinality(Poles(u))]))
-       /\ ((\A q \in Poles(u) : Name(u, q) = t) \/ Fail(p, "C18_type", [unit |-> k, type |-> t, found |-> {Name(u, q) : q \in Poles(u)}]))
+       /\ ((\A q \in Poles(u) : EName(u, q) = t) \/ Fail(p, "C18_type", [unit |-> k, type |-> t, found |-> {EName(u, q) : q \in Poles(u)}]))
 ASSUME \A p \in PIDs : \A k \in DOMAIN UnitsOf(p) : ~Active("C08_overlap") \/ CheckPaste(p, k)
 ASSUME \A p \in PIDs : \A k \in DOMAIN UnitsOf(p) : ~Active("C18_powered") \/ ~WiresOK(UnitsOf(p)[k]) \/ CheckPower(p, k)
 
